@@ -2,10 +2,16 @@ package main
 
 import (
 	"bytes"
+	"crypto/ecdsa"
+	"crypto/elliptic"
+	"crypto/rand"
 	"crypto/tls"
 	"crypto/x509"
+	"crypto/x509/pkix"
 	"encoding/pem"
 	"fmt"
+	"io"
+	"math/big"
 	"net"
 	"os"
 	"path/filepath"
@@ -33,7 +39,7 @@ func init() {
 		Phases: func(tier string, seed int64) []Phase {
 			return []Phase{{Name: "gating", Run: c18Run}, {Name: "testdirectory-mtls", Run: c18Directory}}
 		},
-		MinObserved: []string{"offending_connections", "conforming_ops_verified", "tls13_no_cert_requests_in_flight", "directory_offending_connections", "stranger_certificates_prepared", "conforming_clients_served_next_to_abandoned_handshakes", "sessions_carried_over_to_a_server_with_another_ca", "conforming_sessions_closed_properly_then_continued_in_plaintext", "stops_with_abandoned_handshakes_pending", "configurations_with_a_tls13_minimum_checked"},
+		MinObserved: []string{"offending_connections", "tls_ports_probed_after_an_accept_outage", "conforming_ops_verified", "tls13_no_cert_requests_in_flight", "directory_offending_connections", "stranger_certificates_prepared", "certificates_forged_below_the_directorys_client_certificate", "conforming_clients_served_next_to_abandoned_handshakes", "sessions_carried_over_to_a_server_with_another_ca", "conforming_sessions_closed_properly_then_continued_in_plaintext", "stops_with_abandoned_handshakes_pending", "configurations_with_a_tls13_minimum_checked"},
 	})
 }
 
@@ -312,8 +318,78 @@ func c18SessionAcrossServers(c *Ctx) {
 	}
 }
 
+// c18AfterAcceptOutage: the TLS port after an outage of its accept loop (the process ran out of descriptors for a
+// while - 40ms, 400ms, 1.5s - with peers queued): plaintext LDAP sent to it still reaches no handler, a client without
+// the required certificate still reaches none, and a conforming client is served.
+func c18AfterAcceptOutage(c *Ctx) {
+	pki := newPKI()
+	for i, hold := range []time.Duration{40 * time.Millisecond, 400 * time.Millisecond, 1500 * time.Millisecond} {
+		mtls := i%2 == 1
+		stc, ctc := pki.ServerOnly, pki.ClientPlain
+		if mtls {
+			stc, ctc = pki.ServerMTLS, pki.ClientCert
+		}
+		var served atomic.Int64
+		srv, err := startSrv(SrvCfg{TLS: stc}, func(m *gldap.Mux) {
+			m.Bind(func(w *gldap.ResponseWriter, r *gldap.Request) {
+				if bm, err := r.GetSimpleBindMessage(); err == nil && strings.HasPrefix(bm.UserName, "cn=offender") {
+					served.Add(1)
+				}
+				w.Write(r.NewBindResponse(gldap.WithResponseCode(0)))
+			})
+		})
+		if err != nil {
+			c.Inconclusive("server start: " + err.Error())
+			return
+		}
+		if _, err := emfileEpisode(srv.Addr, i, hold); err != nil {
+			c.Inconclusive("emfile episode: " + err.Error())
+			srv.StopWithin(patience)
+			return
+		}
+		time.Sleep(time.Duration(20+30*i) * time.Millisecond)
+		det := map[string]any{"outage": hold.String(), "client_certificates_required": mtls}
+		for k := 0; k < 3; k++ {
+			// plaintext LDAP
+			if cn, err := net.DialTimeout("tcp", srv.Addr, 5*time.Second); err == nil {
+				cn.Write(sber.Message(1, sber.BindRequest(3, []byte("cn=offender-plaintext"), []byte("p")), nil).Encode())
+				cn.SetReadDeadline(time.Now().Add(300 * time.Millisecond))
+				io.Copy(io.Discard, cn)
+				cn.Close()
+				c.Count("offending_connections", 1)
+			}
+			if mtls {
+				// a TLS client without a certificate
+				if cl, err := dialRaw(srv.Addr, pki.ClientPlain); err == nil {
+					cl.Send(sber.Message(1, sber.BindRequest(3, []byte("cn=offender-without-certificate"), []byte("p")), nil).Encode())
+					cl.ReadMsg(300 * time.Millisecond)
+					cl.Close()
+					c.Count("offending_connections", 1)
+				}
+			}
+		}
+		if n := served.Load(); n > 0 {
+			c.Violate("a handler ran for bytes outside a TLS session satisfying the configuration", fmt.Sprintf("after the accept loop of the TLS port had been failing for %s (descriptor shortage, over now), %d requests of clients that sent plaintext LDAP (or, client certificates being required: %v, presented none) reached the bind handler", hold, n, mtls), det)
+		}
+		if cl, err := dialRaw(srv.Addr, ctc); err != nil {
+			c.Violate("a conforming TLS client was refused", fmt.Sprintf("after the accept loop of the TLS port had been failing for %s: %v", hold, err), det)
+		} else {
+			cl.Send(sber.Message(9, sber.BindRequest(3, []byte("cn=conforming"), []byte("p")), nil).Encode())
+			if m, err := cl.ReadMsg(patience); err != nil || m.ID != 9 {
+				c.Violate("a conforming TLS client was not served", fmt.Sprintf("after the accept loop of the TLS port had been failing for %s: %v", hold, err), det)
+			} else {
+				c.Count("conforming_ops_verified", 1)
+				c.Count("tls_ports_probed_after_an_accept_outage", 1)
+			}
+			cl.Close()
+		}
+		srv.StopWithin(patience)
+	}
+}
+
 func c18Run(c *Ctx) {
 	c18SessionAcrossServers(c)
+	c18AfterAcceptOutage(c)
 	pki := newPKI()
 	for _, cfgName := range []string{"server-auth-only", "client-cert-required", "server-auth-only-certificate-from-callback", "client-cert-required-config-from-callback", "client-cert-required-while-NewServer-was-given-another-config", "server-auth-only-run-on-localhost", "client-cert-required-run-on-localhost", "server-auth-only-tls13-minimum", "client-cert-required-by-callback-on-top-of-a-lenient-config-debug-logger"} {
 		mtls := strings.HasPrefix(cfgName, "client-cert-required")
@@ -630,6 +706,15 @@ func c18Directory(c *Ctx) {
 				c18TLSThenBind(&tls.Config{InsecureSkipVerify: true, Certificates: []tls.Certificate{chain}}, "add")})
 		}
 	}
+	// a certificate the directory's CA never issued, signed with the key of the client certificate it did issue and
+	// presented with that certificate as its "intermediate": a client certificate is not a CA
+	if forged, ok := c18ForgedBelow(td.ClientCert(), td.ClientKey()); ok {
+		for _, maxv := range []uint16{tls.VersionTLS12, tls.VersionTLS13} {
+			strangers = append(strangers, c18Behaviour{fmt.Sprintf("certificate-signed-with-the-key-of-the-directorys-client-certificate-tls%x", maxv), "add",
+				c18TLSThenBind(&tls.Config{InsecureSkipVerify: true, Certificates: []tls.Certificate{forged}, MaxVersion: maxv}, "add")})
+		}
+		c.Count("certificates_forged_below_the_directorys_client_certificate", 1)
+	}
 	if hostTrusted != nil {
 		strangers = append(strangers, c18Behaviour{"certificate-of-a-ca-the-host-trusts", "add", c18TLSThenBind(&tls.Config{InsecureSkipVerify: true, Certificates: []tls.Certificate{*hostTrusted}}, "add")})
 	}
@@ -699,6 +784,38 @@ func c18Directory(c *Ctx) {
 	if !strings.Contains(logs, "conforming-0") {
 		c.Inconclusive("the test directory's handler log does not show even the conforming request: the log oracle is blind")
 	}
+}
+
+// c18ForgedBelow makes a fresh key pair and a client-auth certificate for it that is signed with the given (leaf)
+// certificate's key; the chain presented is [forged, that leaf].
+func c18ForgedBelow(certPEM, keyPEM string) (tls.Certificate, bool) {
+	parentDER := pemDER(certPEM)
+	kb, _ := pem.Decode([]byte(keyPEM))
+	if parentDER == nil || kb == nil {
+		return tls.Certificate{}, false
+	}
+	parent, err := x509.ParseCertificate(parentDER)
+	if err != nil {
+		return tls.Certificate{}, false
+	}
+	parentKey, err := x509.ParsePKCS8PrivateKey(kb.Bytes)
+	if err != nil {
+		return tls.Certificate{}, false
+	}
+	key, err := ecdsa.GenerateKey(elliptic.P256(), rand.Reader)
+	if err != nil {
+		return tls.Certificate{}, false
+	}
+	tpl := &x509.Certificate{
+		SerialNumber: big.NewInt(time.Now().UnixNano()), Subject: pkix.Name{CommonName: "forged below a client certificate"},
+		NotBefore: time.Now().Add(-time.Hour), NotAfter: time.Now().AddDate(0, 1, 0),
+		KeyUsage: x509.KeyUsageDigitalSignature, ExtKeyUsage: []x509.ExtKeyUsage{x509.ExtKeyUsageClientAuth}, BasicConstraintsValid: true,
+	}
+	der, err := x509.CreateCertificate(rand.Reader, tpl, parent, &key.PublicKey, parentKey)
+	if err != nil {
+		return tls.Certificate{}, false
+	}
+	return tls.Certificate{Certificate: [][]byte{der, parentDER}, PrivateKey: key}, true
 }
 
 // c18StrangerLeaf: a client certificate with its key from a separate GetTLSConfig call (another CA).
